@@ -10,6 +10,7 @@ import StimModel.Model.FSim
 import StimModel.Model.DemSem
 import StimModel.Model.Search
 import StimModel.Model.Explain
+import StimModel.Model.Flow
 /-! Line-protocol dispatcher: one request line in, one answer line out. -/
 namespace Stim.Driver
 open Stim Stim.Wire
@@ -988,6 +989,99 @@ def explainCheck (toks : List String) : String :=
     | _ => "bad-request")
   | _ => "bad-request"
 
+/-! ### `flow ...` (C14) -/
+def parseP1s (s : String) : Option (List P1) :=
+  if s == "-" then some [] else
+  s.toList.mapM fun ch => match ch with
+    | '_' => some P1.I | 'X' => some P1.X | 'Y' => some P1.Y | 'Z' => some P1.Z | _ => none
+
+def takeInts : Nat → List String → Option (List Int × List String)
+  | 0, ts => some ([], ts)
+  | k+1, t :: ts => do
+      let v ← t.toInt?
+      let (vs, rest) ← takeInts k ts
+      pure (v :: vs, rest)
+  | _, [] => none
+
+/-- `F <sign> <in> <out> <nm> <m...> <no> <o...>`; measurement indices may be negative (relative to the end: `m` results) -/
+def parseFlow (m : Nat) (toks : List String) : Option (QFlow × Bool × List String) :=
+  match toks with
+  | "F" :: sg :: pin :: pout :: nm :: rest => do
+    let inP ← parseP1s pin
+    let outP ← parseP1s pout
+    let (ms, rest) ← takeInts (← nm.toNat?) rest
+    match rest with
+    | no :: rest => do
+      let (os, rest) ← takeNats (← no.toNat?) rest
+      let inRange := ms.all fun i => (0 ≤ i && i < (m : Int)) || (i < 0 && -i ≤ (m : Int))
+      let abs := ms.map fun i => if i < 0 then (i + (m : Int)).toNat else i.toNat
+      pure ({ inP := inP, outP := outP, sign := sg == "1", meas := abs, obs := os }, inRange, rest)
+    | [] => none
+  | _ => none
+
+def parseFlows (m : Nat) : Nat → List String → Option (List (QFlow × Bool) × List String)
+  | 0, ts => some ([], ts)
+  | k+1, ts => do
+      let (f, ok, rest) ← parseFlow m ts
+      let (more, rest2) ← parseFlows m k rest
+      pure ((f, ok) :: more, rest2)
+
+def flowCmd (toks : List String) : String :=
+  match toks with
+  | "has" :: rest =>
+    (match parseCircuit rest with
+    | some (c, nS :: rest) =>
+      let ctx := flowCtx c (nS.toNat?.getD 0)
+      (match parseFlow ctx.m rest with
+      | some (fl, inRange, [cs, cu]) =>
+        if !inRange then (if cs == "E" && cu == "E" then "ok" else "should-reject-index-out-of-range")
+        else if cs == "E" || cu == "E" then "should-not-reject"
+        else
+          let v := decideFlow c ctx fl
+          let wantU := v != .no
+          if (cu == "1") != wantU then s!"unsigned-differs model={wantU}"
+          else match v with
+            | .unsignedUndecidedSign => "ok"
+            | _ => if (cs == "1") != (v == .yes) then s!"signed-differs model={v == .yes}" else "ok"
+      | _ => "bad-request")
+    | _ => "bad-request")
+  | "gens" :: rest =>
+    (match parseCircuit rest with
+    | some (c, nS :: kS :: rest) =>
+      let ctx := flowCtx c (nS.toNat?.getD 0)
+      (match parseFlows ctx.m (kS.toNat?.getD 0) rest with
+      | some (fls, []) =>
+        match (fls.zipIdx).find? fun ((fl, ok), _) => !ok || decideFlow c ctx fl != .yes with
+        | some (_, i) => s!"generator-is-not-a-flow {i}"
+        | none =>
+          let vecs := fls.map fun (fl, _) => flowVec ctx.N ctx.m ctx.o fl
+          let rank := (gfSpan vecs).length
+          if rank != fls.length then s!"generators-dependent rank={rank} of {fls.length}"
+          else
+            -- flow_generators never mentions observables: compare with the flows that do not use them
+            let ctx0 : FlowCtx := { ctx with o := 0, rows := ctx.rows.map fun r => r.take (4 * ctx.N + ctx.m) }
+            if rank != flowSpaceDim ctx0 then s!"generators-incomplete rank={rank} dim={flowSpaceDim ctx0}"
+            else "ok"
+      | _ => "bad-request")
+    | _ => "bad-request")
+  | "solve" :: rest =>
+    (match parseCircuit rest with
+    | some (c, nS :: rest) =>
+      let ctx := flowCtx c (nS.toNat?.getD 0)
+      (match parseFlow ctx.m rest with
+      | some (fl, _, "none" :: []) =>
+        if solvable ctx fl then "solution-exists" else "ok"
+      | some (fl, _, "some" :: k :: ms) =>
+        (match takeInts (k.toNat?.getD 0) ms with
+        | some (is, []) =>
+          if !(is.all fun i => (0 ≤ i && i < (ctx.m : Int)) || (i < 0 && -i ≤ (ctx.m : Int))) then "solution-index-out-of-range" else
+          let abs := is.map fun i => if i < 0 then (i + (ctx.m : Int)).toNat else i.toNat
+          if holdsUnsigned ctx { fl with meas := abs, obs := [] } then "ok" else "solution-is-not-a-flow"
+        | _ => "bad-request")
+      | _ => "bad-request")
+    | _ => "bad-request")
+  | _ => "bad-request"
+
 def answer (toks : List String) : String :=
   match toks with
   | "tsim" :: "check" :: rest => tsimCheck rest
@@ -1009,6 +1103,7 @@ def answer (toks : List String) : String :=
   | "circ" :: "detcoords" :: rest => circDetCoords rest
   | "circ" :: "qcoords" :: rest => circQCoords rest
   | "explain" :: "check" :: rest => explainCheck rest
+  | "flow" :: rest => flowCmd rest
   | "dem" :: "check" :: rest => demCheck rest
   | "dem" :: "coords" :: rest => demCoords rest
   | "gate" :: "act" :: rest => gateAct rest
